@@ -4,7 +4,7 @@
    The byte-level refinement of the handle operations to Spec/FsSpec.v is decided per explored history
    (checks/c01.py: implementation vs the extracted reference model vs the extracted decoder); see DESIGN.md. *)
 From Coq Require Import ZArith List Bool.
-From ADF Require Import CPrelude Generated.Leaf Proofs.GeometryP Model.FileMap Proofs.FileMapP Spec.FsSpec Model.FileIO Proofs.FileIOL Proofs.FileIOP Proofs.FileIOTieP.
+From ADF Require Import CPrelude Generated.Leaf Proofs.GeometryP Model.FileMap Proofs.FileMapP Spec.FsSpec Model.FileIO Proofs.FileIOL Proofs.FileIOP Proofs.FileIOTieP Proofs.FileIOReachP.
 Import ListNotations.
 Local Open Scope Z_scope.
 
@@ -173,7 +173,42 @@ Example C01_handle_example :
   /\ okt = true /\ rem = [903] /\ bytes2 = firstn 500 bytes.
 Proof. vm_compute. repeat split; reflexivity. Qed.
 
+(* ---- every history ---- *)
+(* `Reach s ct` (Proofs/FileIOReachP.v): s is reached from a new file, or from a file lying anywhere on a volume, by any sequence of reads,
+   seeks, writes, truncations (shrinking / growing / same size), flushes and close-and-reopen, with an allocator that names only blocks the
+   file does not own (or refuses); ct is the content the byte-array model computes along the way (a write splices the accepted bytes in at
+   the position, a shrinking truncation keeps the prefix, a growing one appends zeros).  Every such state is coherent and stands for ct ... *)
+Theorem C01_every_reachable_handle_state : forall bs ofs key, 0 < bs -> forall s ct, Reach bs ofs key s ct ->
+  exists L E, Inv bs ofs key s L E /\ Repr bs s L ct.
+Proof. exact reach_coherent. Qed.
+
+(* ... so what a program reads back after ANY history is the slice of that content, and seeks succeed and clamp to its length *)
+Theorem C01_read_after_any_history : forall bs ofs key, 0 < bs -> forall s ct n, Reach bs ofs key s ct -> mr s = true -> 0 <= n ->
+  snd (fio_read bs ofs nobad s n) = sub ct (pos s) (Z.max 0 (Z.min n (len ct - pos s))) /\ fsize s = len ct.
+Proof. exact reach_read. Qed.
+
+Theorem C01_seek_after_any_history : forall bs ofs key, 0 < bs -> forall s ct p, Reach bs ofs key s ct -> 0 <= p ->
+  fst (fio_seek bs ofs nobad s p) = true /\ pos (snd (fio_seek bs ofs nobad s p)) = Z.min p (len ct).
+Proof. exact reach_seek. Qed.
+
+(* not vacuous: new file, 600 bytes written with the allocator naming 901 and 902, seek to 100 *)
+Example C01_reach_example : exists s ct, Reach 512 false 900 s ct /\ len ct = 600 /\ pos s = 100.
+Proof.
+  eexists. eexists. split.
+  - eapply R_seek with (p := 100); [|discriminate].
+    eapply R_write with (data := zerosZ 600) (al := [Some (901, 0); Some (902, 0)]).
+    + apply (R_new 512 false 900 (fun _ => BOther) true true).
+    + reflexivity.
+    + intros L E I. assert (HLE : L = [] /\ E = []) by (eapply empty_L; [|exact I|reflexivity]; reflexivity). destruct HLE as (-> & ->).
+      cbn. unfold fresh. cbn. repeat split; try discriminate; try (intros [H|[]]; discriminate); try (intros []); try (intros [H|[]]; discriminate H).
+    + vm_compute. reflexivity.
+  - split; vm_compute; reflexivity.
+Qed.
+
 Print Assumptions C01_geometry_pos.
+Print Assumptions C01_every_reachable_handle_state.
+Print Assumptions C01_read_after_any_history.
+Print Assumptions C01_seek_after_any_history.
 Print Assumptions C01_geometry_datablocks.
 Print Assumptions C01_geometry_extblocks.
 Print Assumptions C01_geometry_blocks.
